@@ -17,18 +17,32 @@ TOPO = [O(x) for x in ("0", "1", "11", "111", "1111", "2", "22", "222", "2222", 
 ROUTES = [(O("1"), O("0")), (O("0"), O("2")),  # direct neighbours
           (O("1"), O("2")), (O("0"), O("11")), (O("11"), O("0")),  # 2 hops: across / down / up
           (O("11"), O("2")), (O("11"), O("22")), (O("1111"), O("2222")), (O("2222"), O("11"))]
-TIMEOUTS = ((25, 75), (10, 30), (25, 200))
+TIMEOUTS = ((25, 75), (10, 30), (25, 200), (30, 40))
 _templates = {}
 
 
-def template(cost, tmo, slow=()):
-    key = (cost, tmo, tuple(slow))
+def template(cost, tmo, slow=(), mesh=()):
+    key = (cost, tmo, tuple(slow), tuple(mesh))
     t = _templates.get(key)
     if t is None:
-        specs = [({"addr": a, "cost": 300 * US + a} if a in slow else a) for a in TOPO]  # `slow`: MCUs with 300 us per SPI transaction
+        specs = []
+        for a in TOPO:
+            sp = {"addr": a}
+            if a in slow:
+                sp["cost"] = 300 * US + a  # `slow`: MCUs with 300 us per SPI transaction
+            if a in mesh:
+                sp.update(cls=H.RF24MeshNoMaster, node_id=100 + (a & 63))  # a connected mesh node (its write() takes another path)
+            specs.append(sp)
         t = N.Net(specs, cost_class=cost, horizon=6000 * MS)
-        for n in t.nodes.values():
-            n.tx_timeout, n.route_timeout = tmo
+        for a in mesh:
+            t.nodes[a]._begin(a)  # what renew_address() does once the address was granted
+        for k, n in enumerate(t.nodes.values()):
+            # (public attributes; assigned in either order - neither assignment may change the other value)
+            if (k + tmo[0]) % 2 and tmo[1] >= 3 * tmo[0]:
+                n.tx_timeout, n.route_timeout = tmo
+            else:
+                n.route_timeout = tmo[1]
+                n.tx_timeout = tmo[0]
         _templates[key] = t
     return t
 
@@ -38,13 +52,18 @@ def tclass(t):
 
 
 def run_case(case, chooser=None):
-    net = copy.deepcopy(template(case["cost"], tuple(case["tmo"])))
+    net = copy.deepcopy(template(case["cost"], tuple(case["tmo"]), (), tuple(case.get("mesh", ()))))
     net.w.activate()
     H.reset_frame_ids()
     H.set_frame_id(case.get("id0", 0))
     net.lat = N.LAT[case["lat"]]
     w = net.w
     src, dst = case["src"], case["dst"]
+    for i in range(case.get("origin_queue", 0)):
+        # the origin's application has not read its queue for a while (frames of an earlier conversation)
+        fr = H.RF24NetworkFrame(H.RF24NetworkHeader(src, 9), b"unread %d" % i)
+        fr.header.from_node = O("5")
+        net.nodes[src].queue.enqueue(fr)
     msg = H.pattern(case["mlen"], case.get("seed", 0), salt=7)
     decided = {}
     last_data = {}
@@ -77,6 +96,14 @@ def run_case(case, chooser=None):
         obs["t0"] = w.now
         if case.get("multicast"):
             obs["ret"] = n.multicast(msg, case["mtype"], case["multicast_level"])
+        elif src in case.get("mesh", ()):
+            if case.get("pre_type") is not None:
+                # an earlier message of the other kind (its NETWORK_ACK, if any, is the last frame the node handled)
+                n.write(dst, case["pre_type"], b"earlier")
+                net.serve(ctx, src, 120 * MS)
+                del w.airlog[net.air0:]
+                obs["t0"] = w.now
+            obs["ret"] = n.write(dst, case["mtype"], msg)
         else:
             obs["ret"] = n.send(H.RF24NetworkHeader(dst, case["mtype"]), msg)
         obs["t1"] = w.now
@@ -328,6 +355,17 @@ def build_items(tier, seed):
                         b = (3 if hops <= 3 else 2) if tm == (0, 0) else (2 if hops <= 4 else 1)
                     items.append(([dict(src=s, dst=d, mtype=t, mlen=(k * 5) % 25, tmo=list(tmo), cost=cost, lat=lat,
                                         seed=seed, id0=(k * 977) & 0xFFFF, max_execs=20000)], b))
+    # the origin's queue is full of unread frames (its NETWORK_ACK must be seen all the same), and a connected mesh node as origin
+    # (RF24MeshNoMaster.write(), also after an earlier message of the other kind)
+    for (s, d) in ((O("1"), O("2")), (O("11"), O("2")), (O("11"), O("22"))):
+        for t in (65, 1, 127):
+            k += 1
+            items.append(([dict(src=s, dst=d, mtype=t, mlen=(k * 5) % 25, tmo=list(TIMEOUTS[k % 2]), cost=0, lat=0, seed=seed, id0=(k * 977) & 0xFFFF,
+                                max_execs=20000, origin_queue=6)], 1))
+            for pre in (None, 10, 70):
+                k += 1
+                items.append(([dict(src=s, dst=d, mtype=t, mlen=(k * 5) % 25, tmo=list(TIMEOUTS[k % 2]), cost=0, lat=0, seed=seed, id0=(k * 977) & 0xFFFF,
+                                    max_execs=20000, mesh=[s], pre_type=pre)], 1 if tier == "quick" else 2))
     # third fault kind: every hardware ACK of a frame hop lost (frame delivered, its sender sees a failure)
     for (s, d) in ROUTES:
         hops = len(N.tree_path(s, d)) - 1
